@@ -174,6 +174,8 @@ type Node struct {
 	dead           chan string
 	diedAt         string
 	restarts       int
+	claimsIn       int // maj23 claims of peers applied to this node in its current life
+	claimsPrev     int // ... in the life that ended with the last crash
 	lastStore      int64
 	startErr       error
 	emitSeq        int
@@ -346,6 +348,7 @@ func (nt *Net) startNode(n *Node) bool {
 	n.armed = true
 	n.alive = true
 	n.writes = 0
+	n.claimsPrev, n.claimsIn = n.claimsIn, 0
 	nt.checkReloadedProposer(n, st)
 	st.SetBlockExecutable(executor{nt})
 	store := bc.NewBlockStore(n.dbs["blockstore"], n.dbs["archive"])
@@ -910,6 +913,7 @@ func (nt *Net) maj23Sweep() bool {
 		nt.claimed[key] = true
 		bz := wire.BinaryBytes(struct{ pbft.ConsensusMessage }{&pbft.VoteSetMaj23Message{Height: h, Round: r, Type: typ, BlockID: id}})
 		k.conR.Receive(pbft.StateChannel, k.peers[j.Idx], bz)
+		k.claimsIn++
 		kind := "prevote"
 		if typ == types.VoteTypePrecommit {
 			kind = "precommit"
